@@ -296,8 +296,38 @@ def run(repo: Repo, rep: Report) -> None:
                        "context argument : %s" % txt if ok else "newBlankNode called with a context of type %s: the (SYMBOL, uri) branch may derive the label from the document" % txt, node=c)
     # 3. Formula.number is a class-level counter incremented on construction
     fi = n3.func("Formula.__init__")
-    inc = any(isinstance(n, ast.AugAssign) and norm(n.target) == "Formula.number" for n in own_nodes(fi))
-    rep.ob("C12.a2-who-calls-facts", n3, "Formula.__init__", "Formula.number += 1", inc, "" if inc else "Formula.number is no longer incremented per formula", node=fi)
+    inc = any(isinstance(n, ast.AugAssign) and norm(n.target) == "Formula.number" and n3.parent.get(id(n)) is fi for n in fi.body)
+    nums = [n for n in own_nodes(fi) if isinstance(n, ast.Assign) and norm(n.targets[0]) == "self.number"]
+    from_counter = bool(nums) and all(norm(n.value) == "Formula.number" for n in nums)
+    rep.ob("C12.a2-who-calls-facts", n3, "Formula.__init__", "Formula.number += 1 (unconditional); self.number = Formula.number", inc and from_counter,
+           "formula ids come from the process-wide counter" if inc and from_counter else
+           "a formula's number is no longer always taken from the unconditionally incremented process-wide counter (%s): formula identifiers of separate parse calls can coincide and their quoted graphs merge" % [norm(n.value) for n in nums], node=fi)
+    # parser plugin instances live for one parse call
+    rep.rule("C12.b3-parser-instance-per-call",
+             "a parser plugin instance (`plugin.get(fmt, Parser)()`), which owns the label map, is never stored in an attribute, dict or global: "
+             "each parse() call builds its own", floor=1)
+    nsites = 0
+    for name, mod in repo.modules.items():
+        if name.startswith("rdflib.plugins.parsers.") or name.startswith("rdflib.tools") or name.startswith("rdflib.extras"):
+            continue
+        for q, f in mod.functions():
+            for n in own_nodes(f):
+                cands = []
+                if isinstance(n, (ast.Assign, ast.AnnAssign)) and getattr(n, "value", None) is not None:
+                    cands = [(n, n.targets if isinstance(n, ast.Assign) else [n.target], n.value)]
+                for st, tgs, v in cands:
+                    inst = [c for c in ast.walk(v) if isinstance(c, ast.Call) and isinstance(c.func, ast.Call) and norm(c.func.func) in ("plugin.get", "get_plugin", "plugin_get")
+                            and len(c.func.args) == 2 and norm(c.func.args[1]) == "Parser"]
+                    if not inst:
+                        continue
+                    nsites += 1
+                    stored = [t for t in tgs if isinstance(t, (ast.Attribute, ast.Subscript))]
+                    is_global = any(isinstance(g, ast.Global) for g in own_nodes(f))
+                    rep.ob("C12.b3-parser-instance-per-call", mod, q, st, not stored and not is_global,
+                           "a fresh parser instance held in a local" if not stored and not is_global else
+                           "the parser instance is stored in %s: its label->BNode map survives into the next parse() call and blank nodes of separate documents merge" % norm(stored[0] if stored else st.targets[0]), node=st)
+    if nsites < 1:
+        raise AnalysisError("no parser instantiation site (plugin.get(fmt, Parser)()) found")
 
     # ------------------------------------------------------------------ (b)
     rep.rule("C12.b-label-map-per-parse",
